@@ -1,7 +1,11 @@
 (* Invariant relating the byte memory of Model/Broadcast.v to the abstract channel of Spec/Lossy.v,
    and its preservation by BroadcastTransmitter::transmit. *)
 From Coq Require Import FMapPositive Znumtheory.
-Require Import V.Base.MachineInt V.Generated.GenConsts V.Model.Broadcast V.Spec.Lossy V.Proofs.BroadcastMem.
+Require Import V.Base.MachineInt.
+Require Import V.Generated.GenConsts.
+Require Import V.Model.Broadcast.
+Require Import V.Spec.Lossy.
+Require Import V.Proofs.BroadcastMem.
 From Coq Require Import ZifyBool.
 Open Scope Z_scope.
 
